@@ -300,3 +300,11 @@ MUTANTS.setdefault('C16', []).extend([
     ('pseudo-readdir-offset-added-before-check', _PF, "        let children = inode.children.load();\n\n        if offset >= children.len() as u64 {\n            return Ok(());\n        }\n        // `offset` comes from the client: only add to it once it is known to be an index.\n        let mut next = offset + 1;\n", "        let mut next = offset + 1;\n        let children = inode.children.load();\n\n        if offset >= children.len() as u64 {\n            return Ok(());\n        }\n"),
     ('pseudo-readdir-foreign-type', _PF, "                type_: 0,", "                type_: 8,"),
 ])
+
+# passthrough async twins (unit asyncpt)
+_AP = 'src/passthrough/async_io.rs'
+MUTANTS.setdefault('C20', []).extend([
+    ('pt-async-fsyncdir-is-fsync', _AP, "        self.fsyncdir(ctx, inode, datasync, handle)", "        self.fsync(ctx, inode, datasync, handle)"),
+    ('pt-async-fallocate-swapped', _AP, "        self.fallocate(ctx, inode, handle, mode, offset, length)", "        self.fallocate(ctx, inode, handle, mode, length, offset)"),
+    ('pt-async-open-drops-handle', _AP, "        Ok((handle, opts))", "        let _ = handle; Ok((None, opts))"),
+])
